@@ -372,6 +372,12 @@ def run_poly(ctx, drv, cases):
         fam, N = case['family'], case['N']
         c = [rng.uniform(-1, 1) for _ in range(N)]
         d = [rng.uniform(-1, 1) for _ in range(N)]
+        # all magnitudes: nm-scale aberrations expressed in metres, mixed magnitudes, large values
+        mag = rng.choice([1.0, 1.0, 1e-9, 1e-12, 1e5])
+        c = [v * mag for v in c]
+        d = [v * mag for v in d]
+        if rng.random() < 0.3:
+            c = [v * (1e-9 if rng.random() < 0.5 else 1.0) for v in c]
         a, b = rng.uniform(-2, 2), rng.uniform(-2, 2)
         x, y = sample_points('random', rng, 12)
         r = np.sqrt(x * x + y * y); phi = np.arctan2(y, x)
@@ -399,7 +405,7 @@ def run_poly(ctx, drv, cases):
         pd = np.asarray(Z(list(d)).poly(r, phi), dtype=float)
         pm = np.asarray(Z([a * u + b * v for u, v in zip(c, d)]).poly(r, phi), dtype=float)
         err = np.abs(pm - (a * pc + b * pd))
-        tol = 1e-11 * (1 + np.abs(pc) + np.abs(pd)) + 1e-13 * scale
+        tol = 1e-11 * (np.abs(pc) + np.abs(pd)) + 1e-13 * scale + 1e-13 * sum(abs(v) for v in d) * 1e3
         if np.any(err > tol):
             j = int(np.argmax(err - tol))
             ctx.fail('poly is linear in the coefficient vector', dict(case, point=j), float(pm[j]),
@@ -441,9 +447,14 @@ def run_fit(ctx, drv, cases):
         noise = np.array([rng.uniform(-1, 1) for _ in range(len(r))])
         b = rng.uniform(-2, 2)
         try:
-            f1 = np.array(ZernikeFit(x, y, data, fam, N).coeffs, dtype=float)
-            f2 = np.array(ZernikeFit(x, y, noise, fam, N).coeffs, dtype=float)
-            f3 = np.array(ZernikeFit(x, y, data + b * noise, fam, N).coeffs, dtype=float)
+            # the three fit objects are alive together and are read only after all of them exist: a fit must
+            # not share state with another fit of the same family
+            o1 = ZernikeFit(x, y, data, fam, N)
+            o2 = ZernikeFit(x, y, noise, fam, N)
+            o3 = ZernikeFit(x, y, data + b * noise, fam, N)
+            f1 = np.array(o1.coeffs, dtype=float)
+            f2 = np.array(o2.coeffs, dtype=float)
+            f3 = np.array(o3.coeffs, dtype=float)
         except Exception as e:  # noqa
             ctx.case(case)
             ctx.fail('ZernikeFit runs on exact data at %d well-spread points' % len(r), case,
@@ -524,6 +535,14 @@ def run_opd(ctx, cases):
             ctx.count('opd: not computable (%s) - out of domain' % type(e).__name__)
             ctx.case(case, nontrivial=False)
             continue
+        # a second decomposition of the same family (another field) is created before the first one is read:
+        # decompositions must not share state
+        try:
+            other = fields[(fi + 1) % len(fields)] if len(fields) > 1 else field
+            zo_other = ZernikeOPD(optic, other, w, num_rings=case['rings'], zernike_type=case['family'],  # noqa
+                                  num_terms=case['N'])
+        except Exception:
+            zo_other = None
         ctx.case(case)
         ctx.count('opd cases')
         x = np.asarray(zo.distribution.x, dtype=float); y = np.asarray(zo.distribution.y, dtype=float)
